@@ -159,8 +159,6 @@ def expected_inner(cfgv, callid, a, b):
         return b'\x23' + w
     if callid == 18:
         w, _, _ = memloc_bytes(base, a, 0)
-        if len(b[0]) != a[1]:
-            raise Unspec('data length differs from the memory size')
         return b'\x3d' + w + b[0]
     if callid == 19:
         c, e = (a[8], a[9]) if a[7] == 1 else (0, 0)
